@@ -447,3 +447,37 @@ Proof.
   - intros b H. destruct b as [|x r]; [discriminate|]. cbn [lp_parse] in H. destruct (N.to_nat x <=? length r)%nat; discriminate.
   - intros b f n H. destruct b as [|x r]; [discriminate|]. cbn [lp_parse] in H. destruct (N.to_nat x <=? length r)%nat; discriminate.
 Qed.
+
+(* ------------------------------------------------------------------ bolt request framing is prefix-stable *)
+Open Scope N_scope.
+Lemma bolt_req_len_app b e : 22 <= blen b -> bolt_req_len (b ++ e) = bolt_req_len b.
+Proof.
+  intros H. unfold bolt_req_len. rewrite !sub_app by lia. reflexivity.
+Qed.
+
+Lemma bolt_req_stable : stable bolt_req_parse.
+Proof.
+  constructor.
+  - intros b f n H. unfold bolt_req_parse in H.
+    destruct (blen b <? 22) eqn:E1; [discriminate|]. apply N.ltb_ge in E1.
+    destruct (blen b <? bolt_req_len b) eqn:E2; [discriminate|]. apply N.ltb_ge in E2.
+    injection H as <- <-.
+    assert (Hpos : 22 <= bolt_req_len b) by (unfold bolt_req_len; lia).
+    split; [unfold blen in *; lia|].
+    intros e. unfold bolt_req_parse. rewrite blen_app, (bolt_req_len_app b e E1).
+    destruct (blen b + blen e <? 22) eqn:E3; [apply N.ltb_lt in E3; lia|].
+    destruct (blen b + blen e <? bolt_req_len b) eqn:E4; [apply N.ltb_lt in E4; lia|].
+    rewrite takeN_app by lia. reflexivity.
+  - intros b H. unfold bolt_req_parse in H.
+    destruct (blen b <? 22); [discriminate|]. destruct (blen b <? bolt_req_len b); discriminate.
+  - intros b f n H. unfold bolt_req_parse in H.
+    destruct (blen b <? 22); [discriminate|]. destruct (blen b <? bolt_req_len b); discriminate.
+Qed.
+
+(* with room in the buffer every handed-over connection survives; without, exactly the pool sizes are fatal *)
+Lemma survives_with_room n : handed_over_conn_survives true n = true.
+Proof. reflexivity. Qed.
+Lemma without_room_64_fatal : handed_over_conn_survives false 64 = false /\ handed_over_conn_survives false 4096 = false /\
+  handed_over_conn_survives false 63 = true /\ handed_over_conn_survives false 65 = true.
+Proof. vm_compute. repeat split; reflexivity. Qed.
+Close Scope N_scope.
